@@ -31,9 +31,13 @@ SLOT_WRONG = {
     "tagvalue": ["int", "float", "bool", "bytes", "list", "dict", "object"],
     "fieldkey": ["int", "float", "bool", "bytes", "None", "tuple"],
     "fieldvalue": ["bool", "str", "bytes", "list", "dict", "object"],
+    # a wrong key whose value is None (a legal value that validators like to skip early)
+    "tagkey-with-none-value": ["int", "float", "bool", "bytes", "None", "tuple"],
+    "fieldkey-with-none-value": ["int", "float", "bool", "bytes", "None", "tuple"],
     "tags-container": ["int", "str", "list", "bool"],
     "fields-container": ["int", "str", "list", "bool"],
 }
+MAPPING_SLOTS = ("tagkey", "tagvalue", "fieldkey", "fieldvalue", "tagkey-with-none-value", "fieldkey-with-none-value")
 ENTRIES = ["Point()", "setattr", "insert-measurement-arg", "insert_multiple-measurement-arg", "handle-nonstr-name.insert",
            "insert_multiple-1100-points-measurement-arg", "handle-nonstr-name.insert_multiple-1100-points",
            "update", "update_all", "h.update", "h.update_all"]
@@ -91,7 +95,7 @@ class C14(univ.UnivCheck):
                     for via_callable in (False, True, "inplace"):
                         if via_callable and slot.endswith("container") and wid == "bool":
                             continue
-                        if via_callable == "inplace" and slot not in ("tagkey", "tagvalue", "fieldkey", "fieldvalue"):
+                        if via_callable == "inplace" and slot not in MAPPING_SLOTS:
                             continue
                         sels = ("all", "partial") if entry in ("update", "h.update") else (None,)
                         for sel in sels:
@@ -105,7 +109,7 @@ class C14(univ.UnivCheck):
                     for ci in range(4):
                         cases.append((entry, arg, wid, False, "all" if entry == "update" else None, ci, 2))
         # the same matrix once more for the mapping slots, with the offending item hidden among 20 valid entries
-        wide = [c + ("wide",) for c in cases if c[1] in ("tagkey", "tagvalue", "fieldkey", "fieldvalue") and c[0] not in ("Point()", "setattr")]
+        wide = [c + ("wide",) for c in cases if c[1] in MAPPING_SLOTS and c[0] not in ("Point()", "setattr")]
         self.cases = cases + wide
 
     def rule(self):
@@ -141,8 +145,9 @@ class C14(univ.UnivCheck):
         if slot == "measurement":
             val = v
             return {"measurement": (lambda old: val) if via_callable else val}
-        if slot in ("tagkey", "tagvalue", "fieldkey", "fieldvalue"):
-            d = {"tagkey": {v: "v"}, "tagvalue": {"a": v}, "fieldkey": {v: 1}, "fieldvalue": {"v": v}}[slot]
+        if slot in MAPPING_SLOTS:
+            d = {"tagkey": {v: "v"}, "tagvalue": {"a": v}, "fieldkey": {v: 1}, "fieldvalue": {"v": v},
+                 "tagkey-with-none-value": {v: None}, "fieldkey-with-none-value": {v: None}}[slot]
             if self.wide:
                 pad = {("k%02d" % i): ("s" if slot.startswith("tag") else i) for i in range(20)}
                 d = {**dict(list(pad.items())[:10]), **d, **dict(list(pad.items())[10:])}
@@ -179,9 +184,10 @@ class C14(univ.UnivCheck):
                         "time": {"time": v}, "measurement": {"measurement": v}, "tagkey": {"tags": {v: "v"}},
                         "tagvalue": {"tags": {"a": v}}, "fieldkey": {"fields": {v: 1}}, "fieldvalue": {"fields": {"v": v}},
                         "tags-container": {"tags": v}, "fields-container": {"fields": v},
+                        "tagkey-with-none-value": {"tags": {v: None}}, "fieldkey-with-none-value": {"fields": {v: None}},
                     }[slot]
                     p = Point(**kw)
-                    if slot in ("tagkey", "tagvalue", "fieldkey", "fieldvalue"):
+                    if slot in MAPPING_SLOTS:
                         # ... and once more with the offending item among 20 valid entries
                         arg = "tags" if slot.startswith("tag") else "fields"
                         pad = {("k%02d" % i): ("s" if arg == "tags" else i) for i in range(20)}
@@ -200,6 +206,10 @@ class C14(univ.UnivCheck):
                         p.fields = {v: 1}
                     elif slot == "fieldvalue":
                         p.fields = {"v": v}
+                    elif slot == "tagkey-with-none-value":
+                        p.tags = {v: None}
+                    elif slot == "fieldkey-with-none-value":
+                        p.fields = {v: None}
                     elif slot == "tags-container":
                         p.tags = v
                     else:
